@@ -98,7 +98,6 @@ AcceptsChars(t) == \/ HasScheme(t) /\ ParseFrom(Spell(Tail(t)), 1).ok
 \* ---------------------------------------------------------------- Print = URL.__str__
 \* printed symbols, and for each printed symbol the position of the input it is copied from (0 = literal)
 Span(a, b) == [k \in 1..(IF b >= a THEN b - a + 1 ELSE 0) |-> a + k - 1]
-Zeros(n) == [k \in 1..n |-> 0]
 SegSrc(s) == Span(s.nfrom, s.nto) \o (IF s.kind = "none" THEN <<>> ELSE <<0>> \o Span(s.mfrom, s.mto))
 SegSym(t, s) == SubSeq(t, s.nfrom, s.nto) \o
                 (IF s.kind = "id" THEN <<":">> \o SubSeq(t, s.mfrom, s.mto)
@@ -124,18 +123,16 @@ Identity(t) == [k \in 1..Len(t) |-> k]
 Canon(t) == LET w == IF HasScheme(t) THEN t ELSE <<"S">> \o t IN [k \in 1..Len(w) |-> IF w[k] = "#" THEN ":" ELSE w[k]]
 
 \* ---------------------------------------------------------------- case generation
-\* (1) every symbol string up to STRLEN (enumerated lazily in Init)
-
+\* (1) every symbol string up to STRLEN: enumerated lazily in Init
 \* (2) strings generated from the grammar, including malformed modifiers (41 digits, leading zero)
 Fill(k, a, b) == [i \in 1..k |-> IF i = 1 THEN a ELSE b]
 Names     == {<<"o">>, <<"h">>, <<"d">>, <<"z">>, <<"*">>, <<"o", "o">>, <<"h", "d">>, <<"z", "o">>, <<"*", "h">>, <<"d", "z">>}
 IdLens    == {1, 2, 39, 40, 41}
 IdBodies  == {Fill(k, a, b) : k \in IdLens, a \in {"h", "z"}, b \in {"h", "d"}}
-Amounts   == UNION {[1..k -> DecCh] : k \in 1..3}
+Amounts   == UNION {[1..k -> DecCh] : k \in 1..3} \cup {Fill(4, "d", "z"), Fill(12, "d", "d")}      \* [1-9][0-9]* has no upper limit
 Mods      == {<<>>} \cup {<<s>> \o b : s \in {":", "#"}, b \in IdBodies} \cup {<<"$">> \o a : a \in Amounts}
-ShortMods == {m \in Mods : Len(m) <= 4}
 FewNames  == {<<"o">>, <<"h", "d">>}
-FewMods   == {<<>>, <<":", "h">>, <<"#", "d", "z">>, <<"$", "d">>, <<"$", "d", "z">>, <<"$", "z">>,
+FewMods   == {<<>>, <<":", "h">>, <<"#", "d", "z">>, <<"$", "d">>, <<"$", "d", "z">>, <<"$", "z">>, <<"$">> \o Fill(12, "d", "z"),
               <<"#">> \o Fill(40, "h", "d"), <<":">> \o Fill(41, "h", "h")}
 Segs      == {n \o m : n \in Names, m \in Mods}
 FewSegs   == {n \o m : n \in FewNames, m \in FewMods}
@@ -152,7 +149,7 @@ Replace(t, p, c) == [t EXCEPT ![p] = c]
 Delete(t, p) == SubSeq(t, 1, p - 1) \o SubSeq(t, p + 1, Len(t))
 Edits(t) == {Insert(t, p, c) : p \in 1..(Len(t) + 1), c \in EDITCH}
               \cup {Replace(t, p, c) : p \in 1..Len(t), c \in EDITCH} \cup {Delete(t, p) : p \in 1..Len(t)}
-EditSegs   == {n \o m : n \in FewNames, m \in {x \in FewMods : LONGEDIT \/ Len(x) <= 4}}
+EditSegs   == {n \o m : n \in FewNames, m \in {x \in FewMods : LONGEDIT \/ Len(x) <= 4}}      \* LONGEDIT: also around 12/40/41-digit modifiers
 EditBodies == EditSegs \cup {<<"@">> \o c : c \in EditSegs} \cup {<<"@">> \o c \o <<"/">> \o s : c \in EditSegs, s \in EditSegs}
 EditBases  == EditBodies \cup {<<"S">> \o b : b \in EditBodies}
 \* every generated string also with LF appended (the shortest "one forbidden character" case)
@@ -194,12 +191,9 @@ ModifierShape == Accepts(u) => LET p == Parse(u)
                                                           [] s.kind = "amt" -> u[s.mfrom] = "d" /\ \A k \in s.mfrom..s.mto : u[k] \in DecCh
                                                           [] OTHER -> TRUE IN
                    good(p.ch) /\ good(p.st)
-\* reachability witnesses (must be VIOLATED): the implications above are not vacuous
-W_Accepted     == ~Accepts(u)
-W_Both         == ~(Accepts(u) /\ Parse(u).ch.ok /\ Parse(u).st.ok)
-W_Id40         == ~(Accepts(u) /\ Parse(u).st.kind = "id" /\ Parse(u).st.mto - Parse(u).st.mfrom = 39)
-W_Hash         == ~(Accepts(u) /\ \E i \in 1..Len(u) : u[i] = "#")
-W_ForbiddenEnd == ~(Len(u) > 1 /\ u[Len(u)] = "N" /\ Accepts(SubSeq(u, 1, Len(u) - 1)))
+\* Vacuity guard: every law above is an implication; the driver counts, among the emitted cases, the situations the
+\* antecedents talk about (accepted, channel+stream, 40-digit id, 41-digit id rejected, '#', amount order, "$0" rejected,
+\* LF after a valid URL rejected, scheme, scheme not in front rejected) and fails the run if one of them is missing.
 
 \* ---------------------------------------------------------------- emission (Leg B): one JSON line per case
 RECURSIVE Join(_)
